@@ -1344,6 +1344,10 @@ class Substitution(Rule):
                 upper = self.var_subst
                 upper = limits.reduce_inf_limit(upper.subst(e.var, e.upper - (1 / x)), e.var, ctx.get_conds())
                 upper = full_normalize(upper, ctx)
+            if lower.is_evaluable() and upper.is_evaluable():
+                increasing = ctx2.get_conds().is_not_negative(dfx)
+                if (expr.eval_expr(lower) > expr.eval_expr(upper)) == increasing and lower != upper:
+                    raise AssertionError("Substitution: %s is not continuous and monotone on the interval" % var_subst)
             if lower.is_evaluable() and upper.is_evaluable() and expr.eval_expr(lower) > expr.eval_expr(upper):
                 return normalize(Integral(self.var_name, upper, lower, Op("-", self.f)), ctx.get_conds())
             else:
